@@ -66,9 +66,43 @@ def precheck(pkg, sd, short, taken):
     return "known" if cls == "known" else res
 
 
+def corpus_packages():
+    """fixed packages of every run: merged outputs (-file=, -type=*), one invocation per type (embedding type and
+    embedded type both with defaults), regeneration over the outputs of an earlier version whose def= literals
+    differ but have the same length"""
+    T, fd, N = ctorgen.T_basic, ctorgen.fdecl, ctorgen.T_named
+    pk = []
+
+    def add(structs, mode, short=False, regen=False, order=None):
+        pkg = {"name": "k%03d" % len(pk), "structs": structs, "extra_decls": [], "features": {}, "short": short,
+               "classes": ["corpus"] * len(structs), "mode": mode, "order": order or [x["name"] for x in structs]}
+        pkg["pre"] = ctorgen.length_preserving_edit(pkg) if regen else None
+        assert not regen or pkg["pre"] is not None
+        pk.append(pkg)
+
+    pool = lambda: [c02._sd("Pool", [fd(["size"], T("int"), ["//shoot: def=10"]), fd(["policy"], T("string"), ['//shoot: def="fifo"']),
+                                     fd(["load"], T("float64"), ["//shoot: def=0.75"]), fd(["tags"], ("slice", T("string")))]),
+                    c02._sd("Job", [fd(["id"], T("string")), fd(["prio"], T("int"), ["//shoot: def=5"]),
+                                    fd(["limit"], ("ptr", T("int")), ["//shoot: def=new(int)"])])]
+    add(pool(), "file")
+    add(pool(), "star", regen=True)
+    add(pool(), "type", short=True, regen=True)
+    add(pool(), "filesep", regen=True)
+    add(pool(), "each", regen=True, order=["Job", "Pool"])
+    audit = lambda: [c02._sd("Audit", [fd(["by"], T("string"), ['//shoot: def="sys"']), fd(["rev"], T("int"))]),
+                     c02._sd("Order", [fd([], N("", "Audit")), fd(["qty"], T("int"), ["//shoot: def=1"]), fd(["note"], T("string"))]),
+                     c02._sd("Ship", [fd([], ("ptr", N("", "Order"))), fd(["via"], T("string"), ['//shoot: def="air"'])])]
+    add(audit(), "each", order=["Audit", "Order", "Ship"])
+    add(audit(), "each", order=["Ship", "Order", "Audit"])
+    add(audit(), "file")
+    add(audit(), "type")
+    return pk
+
+
 def gen_packages(run, n):
-    pkgs = []
-    stats = {"regenerated": 0}
+    pkgs = corpus_packages()
+    stats = {"regenerated": 0, "corpus_packages": len(pkgs)}
+    n += len(pkgs)
     k = 0
     while len(pkgs) < n:
         k += 1
@@ -219,19 +253,11 @@ def oracle_file(pkg, body, needs_time, needs_helper, modname):
 
 def observe(run, shoot, sigbin, modname, pkgs):
     mod = ctorlib.setup_module(run, modname)
-    jobs = []
+    plans = []
     for pkg in pkgs:
-        l2.write_files(mod / pkg["name"], ctorgen.render_go(pkg, modname))
-        names = [sd["name"] for sd in pkg["structs"]]
-        if not pkg.get("order"):
-            order = list(names)
-            if run.rng.random() < 0.5:
-                run.rng.shuffle(order)
-            pkg["order"] = order
-        args = ["new", "-opt"] + (["-short"] if pkg["short"] else []) + ["-type=" + ",".join(pkg["order"])]
-        pkg["args"] = args
-        jobs.append((pkg["name"], args))
-    res = ctorlib.run_shoot_pkgs(shoot, mod, jobs)
+        flags = ["-opt"] + (["-short"] if pkg["short"] else [])
+        plans.append((pkg["name"], ctorlib.prepare_plan(run.rng, pkg, flags, modname)))
+    res = ctorlib.run_plans(shoot, mod, plans)
     run.log("shoot ran on %d packages" % len(pkgs))
     sigs = ctorlib.run_ctorsig(sigbin, mod)
     run.log("ctorsig done")
@@ -369,6 +395,8 @@ def executed_witnesses(run, shoot, sigbin):
     pkgs = [copy.deepcopy(NIL_EMBED_PKG), copy.deepcopy(PROMOTED_PKG)]
     for p in pkgs:
         p["order"] = [sd["name"] for sd in p["structs"]]
+        p["mode"] = "type"
+        p["pre"] = None
     saved = run.rng.getstate()
     obs, _ = observe(run, shoot, sigbin, "c13wit", pkgs)
     run.rng.setstate(saved)
@@ -445,8 +473,9 @@ def main(run):
                            "struct": sd["name"], "short": pkg["short"],
                            "spec": {"name": pkg["name"], "structs": [{k: x for k, x in s.items() if not k.startswith("_")}
                                                                      for s in pkg["structs"]],
-                                    "extra_decls": pkg["extra_decls"], "short": pkg["short"]},
-                           "sources": ctorgen.render_go(pkg, "c13mod"), "cmd": "shoot " + " ".join(pkg["args"]),
+                                    "extra_decls": pkg["extra_decls"], "short": pkg["short"], "mode": pkg.get("mode"),
+                                    "order": pkg.get("order"), "pre": pkg.get("pre"), "generate_line": pkg.get("generate_line")},
+                           "sources": ctorgen.render_go(pkg, "c13mod"), "cmd": ctorlib.describe_plan(pkg),
                            "shoot": pkg.get("shoot"), "type_errors": pkg.get("type_errors"), "observed": o,
                            "verdict": v,
                            "how": "run the command in the package directory, then for each run call the entry point "
@@ -491,7 +520,7 @@ def main(run):
     for i in (0, len(index) // 2, len(index) - 1):
         pkg, sd = index[i]
         o = obs[(pkg["name"], sd["name"])]
-        samples.append({"package": pkg["name"], "struct": sd["name"], "cmd": "shoot " + " ".join(pkg["args"]),
+        samples.append({"package": pkg["name"], "struct": sd["name"], "cmd": ctorlib.describe_plan(pkg),
                         "source": ctorgen.render_struct(sd), "options": o["options"],
                         "runs": [{k: r[k] for k in ("entry", "fields", "zero", "panic", "after")} for r in o["runs"][:3]],
                         "verdict": verdicts.get(i, 0)})
@@ -518,6 +547,8 @@ def main(run):
         "runs_nil_after_non_nil_same_field": nil_after_value, "runs_nil_option_on_field_with_default": nil_over_default, "runs_panicking_as_modelled": panics,
         "runs_on_types_with_defaults": with_defaults,
         "short_packages": sum(1 for p in pkgs if p["short"]),
+        "packages_by_mode": {m: sum(1 for p in pkgs if p.get("mode") == m) for m in ("type", "file", "filesep", "star", "each")},
+        "packages_regenerated_over_old_output": sum(1 for p in pkgs if p.get("pre") is not None),
         "generator": gstats,
         "findings_measured": outcome,
         "exhaustive": False,
@@ -551,7 +582,13 @@ def replay(run, path):
     for sd in pkg["structs"]:
         for fd in sd["fields"]:
             fd["ty"] = c02._tuplify(fd["ty"])
-    pkg["order"] = [a for a in r["cmd"].split() if a.startswith("-type=")][0][len("-type="):].split(",")
+    if not pkg.get("mode"):
+        pkg["mode"] = "type"
+        pkg["order"] = [a for a in r["cmd"].split() if a.startswith("-type=")][0][len("-type="):].split(",")
+    if pkg.get("pre"):
+        for sd in pkg["pre"]["structs"]:
+            for fd in sd["fields"]:
+                fd["ty"] = c02._tuplify(fd["ty"])
     obs, mod = observe(run, shoot, sigbin, "c13mod", [pkg])
     pkgdefs, rendered, index = render_cases([pkg], obs)
     mism = ctorlib.coq_shards(run, "c13replay", pkgdefs, rendered, "Model.CtorOpt Corr.CtorCorr Corr.CtorOptCorr",
